@@ -35,7 +35,12 @@ type propInfo struct {
 	assumptions     []string
 }
 
-const verifRoot = "/verif"
+var verifRoot = func() string {
+	if r := os.Getenv("VERIF_ROOT"); r != "" {
+		return r
+	}
+	return "/verif"
+}()
 
 func usage() {
 	fmt.Fprintln(os.Stderr, "usage: check <ID> [quick|thorough] | check <ID> --replay <file>")
